@@ -66,7 +66,7 @@ CLAIMS = {
             "received (C08_body_bounded, C08_headers_bounded, C08_message_bounded, C08_stream_bounded); each extracted message consumes input (C08_progress); an undecodable stream "
             "closes the connection and the loop keeps serving (C08_undecodable_closes, C08_keeps_serving). Regenerated-fact obligation: the inventory of every index/slice/type "
             "assertion/map write with its guards equals the reviewed snapshot (Expected.Inventory). Tie: accept/reject of mutated byte strings vs the model, robustness oracle "
-            "(no panic, bounded allocation, no stall) through the real pipeline over UDP and TCP paths, liveness probes; a dying process is attributed to the op that killed it.",
+            "(no panic, bounded allocation, no stall) through the real pipeline over UDP and TCP paths, liveness probes, the real TCP receive loop on streams that stop decoding (the connection must be closed); a dying process is attributed to the op that killed it.",
             "7 C08", "Partial: Go runtime, GC, channel back-pressure, DNS latency and kernel buffers are not modelled; nil dereferences are not inventoried.",
             "Lean 4 proof over a total model + kernel-checked inventory obligation + differential correspondence with robustness oracle"),
     "C09": ("proof", "Theorems (Props/C09.lean) over a lock/thread model (Side/Lockset.lean): mutual exclusion of the lock semantics (mutual_exclusion), every reachable state of "
@@ -81,12 +81,14 @@ CLAIMS = {
     "C10": ("proof", "Theorems (Props/C10.lean): what is decoded from a datagram is a function of its own bytes (C10_local, C10_within_datagram), stale buffer content is invisible "
             "(C10_stale_invisible), over-declared and truncated datagrams are rejected (C10_overdeclared_udp, C10_truncated_udp, ...), pool buffers are exclusive "
             "(C10_pool_invariant, C10_pool_exclusive, C10_pool_held_distinct). Regenerated-fact obligations on the reader (Expected.Reader: parse over b[:n], loop shape). "
-            "Tie: every datagram goes through the REAL startParseMessage in a clean and in a dirty 64 KiB pooled buffer with deferred serialisation.",
+            "Tie: every datagram goes through the REAL startParseMessage in a clean and in a dirty 64 KiB pooled buffer with deferred serialisation; "
+            "stream udpwire drives the real UDPServerTransport (receive loop, parse loop, pool) on a loopback socket with datagrams of very different sizes "
+            "one after the other; pool exclusivity is an oracle on the implementation's answers.",
             "7 C10", "Partial: kernel datagram boundaries and the scheduler are not modelled.", "Lean 4 proof + differential correspondence (clean/dirty buffers, queued serialisation)"),
     "C11": ("proof", "Theorems (Props/C11.lean): the messages extracted from a byte stream are a function of the stream, not of its segmentation (C11_segmentation_independent, "
             "C11_any_split_exact, C11_exact_messages, C11_messages_then); a line read in fragments is their concatenation, and the uncopied variant corrupts (C11_fragments_joined, "
             "C11_fragments_uncopied_corrupt). Tie: generated message sequences under scripted segmentations (exhaustive single/double cuts, random cuts to 1-byte segments, 20 KiB "
-            "lines, SIP-looking bodies, keep-alives) through the real ParseMessage on one bufio.Reader, with queued serialisation.",
+            "lines, SIP-looking bodies, keep-alives) through the REAL per-connection loop TCPServerTransport.receiveMessage over a connection double that delivers exactly the scripted segments, with queued serialisation.",
             "7 C11", "Partial: bufio.Reader is represented by its contract (Reader/Frame.lean).", "Lean 4 proof + exhaustive/random segmentation correspondence"),
     "C12": ("proof", "Theorems (Props/C12.lean): the transport key determines (host, port, transaction) and distinct transactions of received messages never share a key, "
             "with no hypothesis on the method (C12_key_injective, C12_tid_method_no_blank, C12_distinct_transactions_distinct_keys); registration then lookup under any interleaving "
@@ -103,8 +105,8 @@ CLAIMS = {
     "C14": ("proof", "Theorems (Props/C14.lean, 52): per-type round-trip laws parse(encode x) = x and re-encode stability on explicit decidable domains, and accessor theorems "
             "(host, port, transport, tag, branch, received, rport) for key/value parameters, URI parameters and headers, SIP URIs, absolute URIs, addr-spec, name-addr, Via entries "
             "and lists, Route/Record-Route entries and lists; From/To/CSeq are lossless for EVERY text (C14_from_to_lossless, C14_cseq_lossless). Tie: grammar-directed "
-            "differential stream whose expected decodes and accessor values are computed from the abstract value independently of code and model; stdlib micro-correspondence "
-            "underneath (stream std).",
+            "differential stream whose expected decodes and accessor values are computed from the abstract value independently of code and model (every text is decoded twice, the first decoded value consumed in between); stdlib micro-correspondence "
+            "underneath (stream std). Obligation on regenerated facts: the program has no process-wide state beyond four known variables (Expected.Globals).",
             "7 C14", "Known findings (known_findings.json): IPv6 references, ';'/'?' in user parts (named by the property), empty password, port with leading zeros.",
             "Lean 4 proof (round-trip laws on decidable domains) + grammar-directed differential correspondence"),
     "C15": ("proof", "Theorems (Props/C15.lean) over the DialogBasedBackend model with explicit time, for arbitrary histories of add/get/remove at non-decreasing instants: a pin is "
@@ -132,7 +134,7 @@ CLAIMS = {
     "C19": ("proof", "Theorems (Props/C19.lean): for every history of duplicate-free resolutions and failures the rotation list, its map and the proxy's address index hold exactly the "
             "current resolved set (C19_tracks, C19_history); up to three consecutive failures change nothing, the fourth empties a non-empty set (C19_tolerance, C19_fourth_empties, "
             "failLimit_is_three). Tie: exhaustive (length 3/5 over subsets of 3) and random outcome histories fed to the real addressResolved, through a hand-assembled rotation and "
-            "through the real CreateRoundRobinBackend with the global resolver.",
+            "through the real CreateRoundRobinBackend with the global resolver; for udp rotations one full dispatch round is observed on real sockets bound at every candidate address (who receives, not only what the tables say).",
             "7 C19", "Partial: notifications run in fresh goroutines; the model is the synchronous composition the property's quiescence grants (the harness waits until no goroutine "
             "has notifyAddressChanged on its stack). Two names with overlapping images are outside the theorem.",
             "Lean 4 proof (membership invariants) + exhaustive differential correspondence"),
